@@ -109,11 +109,14 @@ class Violations:
         self.sim = sim
         self.cap = cap
         self.v = []
+        self.extra = None      # optional callable returning context fields recorded with each violation
 
     def add(self, oracle, msg, **kw):
         if len(self.v) < self.cap:
             d = {"oracle": oracle, "msg": msg, "t": self.sim.now}
             d.update(kw)
+            if self.extra is not None:
+                d.update(self.extra())
             self.v.append(d)
             self.sim.ev("VIOLATION", oracle)
 
